@@ -18,6 +18,7 @@ pub struct OutTrait {
     pub ident: syn::Ident,
     pub supertraits: trait_codegen::Supertraits,
     pub fns: Vec<TraitFn>,
+    pub associated_types: Vec<trait_codegen::AssociatedType>,
 }
 
 pub fn analyze_trait(item_trait: syn::ItemTrait) -> syn::Result<OutTrait> {
@@ -40,7 +41,10 @@ pub fn analyze_trait(item_trait: syn::ItemTrait) -> syn::Result<OutTrait> {
                 });
             }
             syn::TraitItem::Type(ty) => {
-                associated_types.push(ty);
+                associated_types.push(trait_codegen::AssociatedType {
+                    preceding_fns: fns.len(),
+                    item: ty,
+                });
             }
             item => {
                 return Err(syn::Error::new(
@@ -76,5 +80,6 @@ pub fn analyze_trait(item_trait: syn::ItemTrait) -> syn::Result<OutTrait> {
         },
         supertraits,
         fns,
+        associated_types,
     })
 }
